@@ -109,7 +109,9 @@ def decode_wsgi(data, buf, pattern):
     ct = decode_wsgi.ctype or CTYPES[(decode_wsgi.n // 3) % len(CTYPES)]
     if ct:
         headers['Content-Type'] = ct
-    env = make_environ('POST', '/c', stream=FragStream(data, pattern), content_length=cl, headers=headers)
+    # a server may put the wsgi.input_terminated key into the environ with a FALSE value (it did not de-chunk): the coding is the application's to decode
+    extra = [None, None, {'wsgi.input_terminated': False}, {'wsgi.input_terminated': 0}, {'wsgi.input_terminated': None}][(decode_wsgi.n // 2) % 5]
+    env = make_environ('POST', '/c', stream=FragStream(data, pattern), content_length=cl, headers=headers, extra=extra)
     r = call_app(app, env)
     if r.escaped is not None:
         raise CheckFailure(f'exception escaped the app: {fmt_exc(r.escaped)}')
